@@ -73,7 +73,7 @@ func c06Opts(rng *rand.Rand, engine string, n int, rocksWAL bool) ClusterOpts {
 }
 
 func runC06(c *vc.Ctx) error {
-	c.Ev.Rule = "case = (crash point, k-th hit, optional delay before the crash, engine pebble|mem, use_rocks_wal, config single voter | 3 voters with victim leader/follower, stage: serving process | restarting process after a first kill = double crash) or SIGKILL from outside after n acknowledged writes; workload = 3 sequential single-writer-per-key clients (RPUSH+INCR, HSET+SADD, ZADD+SETEX, unique values, 100..200 writes each, SnapCount 10..30, SnapCatchup 3..5, KeepBackup 2, 8 KiB WAL segments so that snapshots, compactions, checkpoint purges and WAL cuts are crossed); k ranges over 1,2,3,5,8,... up to the hits counted in a dry run of the same script; after the crash the node is restarted on its directory, settle is observed, the full logical dump is compared with the admissible states (acked writes in order, unknown-outcome writes at most once, nothing else) and, with 3 voters, with the other replicas. non-trivial = the crash actually fired (failpoint line logged / external kill done), the node was restarted and compared; distinct by (point,k,delay,engine,config,rockswal,role,stage)"
+	c.Ev.Rule = "case = (crash point, k-th hit, optional delay before the crash, engine pebble|mem, use_rocks_wal, config single voter | 3 voters with victim leader/follower, stage: serving process | restarting process after a first kill = double crash) or SIGKILL from outside after n acknowledged writes; workload = 4 sequential single-writer-per-key clients (RPUSH+INCR, HSET+SADD, ZADD+SETEX, PFADD on two HyperLogLog keys; unique values, 100..200 writes each; HLL keys are judged by PFCOUNT against reference keys filled after the restart with the admissible element sets, SnapCount 10..30, SnapCatchup 3..5, KeepBackup 2, 8 KiB WAL segments so that snapshots, compactions, checkpoint purges and WAL cuts are crossed); k ranges over 1,2,3,5,8,... up to the hits counted in a dry run of the same script; after the crash the node is restarted on its directory, settle is observed, the full logical dump is compared with the admissible states (acked writes in order, unknown-outcome writes at most once, nothing else) and, with 3 voters, with the other replicas. non-trivial = the crash actually fired (failpoint line logged / external kill done), the node was restarted and compared; distinct by (point,k,delay,engine,config,rockswal,role,stage)"
 	c.Ev.Assume("kill -9 keeps the page cache: the order of persistence steps is decided, fsync placement (power loss) is not")
 	c.Ev.Assume("engines pebble and mem only; the 10-minute WAL/snap file purge timer is not reachable (covered at package level by C05)")
 	c.Ev.Assume("single-voter cases attribute a loss of at most the newest acknowledged write per client to the publish-before-persist window of processReady (signature ack-before-persist/single-voter), whichever crash point fired; losses of any other shape, and every loss with 3 voters, are acked-write-missing/<point>")
